@@ -276,13 +276,25 @@ func concAddAll(f *sfnt.Font, level int) {
 		return l
 	}
 	_ = all
+	dangle := func(l []gtab.LookupIndex, n int) []gtab.LookupIndex {
+		out := []gtab.LookupIndex{gtab.LookupIndex(n + 2)}
+		for i, x := range l {
+			out = append(out, x)
+			if i == len(l)/2 {
+				out = append(out, gtab.LookupIndex(n))
+			}
+		}
+		return append(out, 0xFFFE)
+	}
 	f.Gsub = &gtab.Info{
 		ScriptList: map[language.Tag]*gtab.Features{
 			language.MustParse("und-Zzzz"): {Required: 0, Optional: []gtab.FeatureIndex{1}},
 		},
 		FeatureList: []*gtab.Feature{
-			{Tag: "test", Lookups: top(gs, map[int]bool{8: true, 9: true})[:4]},
-			{Tag: "liga", Lookups: top(gs, map[int]bool{8: true, 9: true})[4:]},
+			// with DANGLING references (index >= len(LookupList)), which the reader, FindLookups,
+			// NewContext/Apply and Encode tolerate: first, in the middle and last in a list
+			{Tag: "test", Lookups: dangle(top(gs, map[int]bool{8: true, 9: true})[:4], len(gs))},
+			{Tag: "liga", Lookups: dangle(top(gs, map[int]bool{8: true, 9: true})[4:], len(gs))},
 		},
 		LookupList: gs,
 	}
@@ -292,8 +304,8 @@ func concAddAll(f *sfnt.Font, level int) {
 			language.MustParse("und-Zzzz"): {Required: 0, Optional: []gtab.FeatureIndex{1}},
 		},
 		FeatureList: []*gtab.Feature{
-			{Tag: "kern", Lookups: top(gp, map[int]bool{nq + 3: true})[:3]},
-			{Tag: "mark", Lookups: top(gp, map[int]bool{nq + 3: true})[3:]},
+			{Tag: "kern", Lookups: dangle(top(gp, map[int]bool{nq + 3: true})[:3], len(gp))},
+			{Tag: "mark", Lookups: dangle(top(gp, map[int]bool{nq + 3: true})[3:], len(gp))},
 		},
 		LookupList: gp,
 	}
@@ -367,6 +379,12 @@ var concNameFonts = []string{"sttf", "sttfdup", "sttfempty", "sttfnotdef0", "stt
 var concRawFonts = []string{"sttf+img", "sttf+imgj", "sttf+odd", "ttf+img", "ttf+odd", "sttfnest+img"}
 
 // concLayoutFonts: synthetic layout tables covering every subtable type (see concAddAll).
+// concNilFonts: in-memory fonts where optional slice/map/pointer fields of sfnt.Font,
+// cff.Outlines and glyf.Outlines are nil or empty (sfnt.Read and debug.MakeSimpleFont always set
+// them): nil Encoding (stands for the standard encoding), nil FontMatrices/GIDToCID, private
+// dictionaries without blue values, nil cmap table, no raw tables / names / maxp.
+var concNilFonts = []string{"cffnoenc", "cffemptyenc", "cffnil", "cffnocmap", "sttfnil", "sttfnocmap"}
+
 var concLayoutFonts = []string{"cffall", "cffallx", "cffall5", "cffalln", "sttfall", "sttfallx", "sttfalln", "cffsub", "sttfsub"}
 
 // concSubGsub / concSubGpos: only the lookup types Subset implements (GSUB 1.1 and 4.1, GPOS
@@ -713,10 +731,16 @@ func concFontRaw(id string) *sfnt.Font {
 			concAddAll(f, 1)
 		case "sttfalln":
 			concAddAll(f, 3)
+		case "sttfnil":
+			o.Names, o.Tables, o.Maxp = nil, nil, nil
+			f.Gdef, f.Gsub, f.Gpos = nil, nil, nil
+		case "sttfnocmap":
+			f.CMapTable = nil
+			o.Tables = map[string][]byte{}
 		default:
 			panic("unknown font id " + id)
 		}
-	case id == "cffdup", id == "cffempty", id == "cffnotdef0", id == "cidmulti", id == "cff12", id == "cffall", id == "cffallx", id == "cffall5", id == "cffalln", id == "cffsub":
+	case id == "cffdup", id == "cffempty", id == "cffnotdef0", id == "cidmulti", id == "cff12", id == "cffall", id == "cffallx", id == "cffall5", id == "cffalln", id == "cffsub", id == "cffnoenc", id == "cffemptyenc", id == "cffnil", id == "cffnocmap":
 		f = debug.MakeSimpleFont()
 		f.CreationTime, f.ModificationTime = concFixedTime, concFixedTime
 		o := f.Outlines.(*cff.Outlines)
@@ -741,6 +765,18 @@ func concFontRaw(id string) *sfnt.Font {
 			concAddAll(f, 2)
 		case "cffalln":
 			concAddAll(f, 3)
+		case "cffnoenc":
+			o.Encoding = nil
+		case "cffemptyenc":
+			o.Encoding = make([]glyph.ID, 0, 256)
+		case "cffnil":
+			o.Encoding, o.FontMatrices, o.GIDToCID, o.ROS = nil, nil, nil, nil
+			o.Private = []*type1.PrivateDict{{}}
+			f.Gdef, f.Gsub, f.Gpos = nil, nil, nil
+			f.Description, f.SampleText, f.Copyright = "", "", ""
+		case "cffnocmap":
+			o.Encoding = nil
+			f.CMapTable = nil
 		case "cffall":
 			concAddAll(f, 0)
 		case "cffallx":
@@ -1077,6 +1113,20 @@ var concOps = []concOp{
 		for _, t := range concTriggers {
 			b.WriteString(concShowSeq(ctx.Apply(concSeq(f, t))))
 			b.WriteByte('|')
+		}
+		// direct use with the FONT-OWNED index lists (each feature's Lookups, as stored in the
+		// font — possibly with dangling references), twice: NewContext/Apply must not touch them
+		for round := 0; round < 2; round++ {
+			for _, feat := range info.FeatureList {
+				if feat == nil {
+					continue
+				}
+				c2 := gtab.NewContext(info.LookupList, f.Gdef, feat.Lookups)
+				for _, t := range []string{"AAB FI AVA", "QQQQQQQQ", concText(r)} {
+					b.WriteString(concShowSeq(c2.Apply(concSeq(f, t))))
+					b.WriteByte('|')
+				}
+			}
 		}
 		return concShort(b.String())
 	}},
@@ -1558,6 +1608,7 @@ func areaConc(c *Ctx) {
 	fonts = append(fonts, concShapeFonts...)
 	fonts = append(fonts, concRawFonts...)
 	fonts = append(fonts, concLayoutFonts...)
+	fonts = append(fonts, concNilFonts...)
 	for _, i := range []int{0, 7, 19, 33, 48, 61, 77, 90, 104, 118} {
 		if i < len(testcases.Gsub) {
 			fonts = append(fonts, fmt.Sprintf("tc%d", i))
@@ -1586,6 +1637,9 @@ func areaConc(c *Ctx) {
 		case x < 7:
 			return Pick(c.Rng, concRawFonts)
 		case x < 9:
+			if c.Rng.Chance(1, 4) {
+				return Pick(c.Rng, concNilFonts)
+			}
 			return Pick(c.Rng, concLayoutFonts)
 		}
 		return Pick(c.Rng, fonts)
@@ -1655,6 +1709,15 @@ func areaConc(c *Ctx) {
 		c.Stat("pure.op", "subset(most)")
 		drain()
 		i++
+	}
+	for _, id := range concNilFonts {
+		for _, op := range []string{"write", "writepdf", "ascffwrite", "subset", "glyphnames", "layout", "fontinfo"} {
+			if op == "ascffwrite" && !strings.HasPrefix(id, "cff") {
+				continue
+			}
+			pure(op, id)
+			i++
+		}
 	}
 	// completeness of the snapshot itself (a planted write in every slice/map must change the hash)
 	self := []string{"cffalln", "cffall5", "cffsub", "cid"}
